@@ -328,6 +328,31 @@ func c17Run(c *Ctx) {
 			c17Judge(c, &Case{Gen: "pow-batches", Src: Lines(lines...), X: map[string]string{"fn": "pow", "args": strings.Join(b1, " "), "args2": strings.Join(b2, " ")}})
 		}
 	}
+	// pow over the full boundary x boundary grid (special bases and exponents: +-0, +-Inf, NaN, 0.5, +-1, ...)
+	{
+		bd := append(c17Boundary(), -0.5, 0.5, 2, -2, 3, -3, 1, -1, 0.25, 1e-300, -1e-300)
+		var lines, b1, b2 []string
+		flush := func() {
+			if len(lines) == 0 {
+				return
+			}
+			if c.Mine() {
+				c17Judge(c, &Case{Gen: "pow-batches", Src: Lines(lines...), X: map[string]string{"fn": "pow", "args": strings.Join(b1, " "), "args2": strings.Join(b2, " ")}})
+			}
+			lines, b1, b2 = nil, nil, nil
+		}
+		for _, x := range bd {
+			for _, y := range bd {
+				lines = append(lines, Print(BI("pow", NumLit(x), NumLit(y))), Print(NumLit(x)+" ** "+NumLit(y)))
+				b1 = append(b1, strconv.FormatUint(math.Float64bits(x), 16))
+				b2 = append(b2, strconv.FormatUint(math.Float64bits(y), 16))
+				if len(b1) == 60 {
+					flush()
+				}
+			}
+		}
+		flush()
+	}
 	// 3. min / max over all permutations of small multisets, list and array call forms
 	pool := []string{"(-3)", "(-0.5)", "0", "2", "2", "7", "(10 ** 400)", "(-(10 ** 400))", "1000000", "(7 & 3)", "(10 ** 500)", "(-(10 ** 500))", "1" + strings.Repeat("0", 308)}
 	var perms func(cur []int, depth int)
